@@ -44,8 +44,7 @@ Definition op_name (o : op) : string :=
    | OExportImport => "export_import" | ORotate _ _ => "rotate" end)%string.
 
 Section Run.
-Variable dapp_perm : Z.        (* the permission layer2's CreateDappProposal effectively checks in the working
-                                  tree, as resolved by the translator (Gen/Gates.v wrapper_mismatch) *)
+Variable c : cfg.              (* variation points of the working tree, from Gen/Gates.v *)
 Variable uperms : list Z.      (* permission universe of the harness *)
 
 (* ======================= model vs observation *)
@@ -67,9 +66,8 @@ Definition state_matches (s : state) (o : obs) : bool :=
    permission model: the observed outcome decides whether the gov part ran *)
 Definition exec (s : state) (o : op) (ok : bool) : option state :=
   match o with
-  | ORotate _ _ => if ok then Some (step_total s o) else Some s
-  | OGate GDapp x => if Bool.eqb (check_allowed s x dapp_perm) ok then Some s else None
-  | _ => match step s o with
+  | ORotate _ _ => if ok then Some (step_total c s o) else Some s
+  | _ => match step c s o with
          | Ok s' => if ok then Some s' else None
          | _ => if ok then None else Some s end
   end.
